@@ -25,6 +25,10 @@ ASSUMPTIONS = [
     "testbenches have started (Simulator.advance: all events of a time point take effect before the testbenches run again).",
     "changed()/edge() are awaited on registers only (glitch wake-ups on combinational signals are documented as order-dependent).",
     "No resets are applied.",
+    "Generated programs under real clocks (a quarter of the cases): besides the hopping testbench an observer testbench, added "
+    "first, loops over one-shot `tick(domain).sample(every signal)` waits; it must be resumed exactly at every active edge of the "
+    "domain (clk_hit, reset level, values from just before the edge) and, for an asynchronous-reset domain, when the reset rises "
+    "(no clk_hit, reset active, values from just before the reset took effect).",
     "Trigger combinations (edge|delay, changed|delay): the wake-up instant is the earlier of the two; the result reports which "
     "fired; when both fall into the same instant the first element of the result (edge flag / sampled value) is not compared "
     "with the reference, only between process orders.",
@@ -36,7 +40,8 @@ COMPONENTS = {"real": ["amaranth.sim.Simulator / PySimEngine.step_design / advan
                        "integer-arithmetic reference of circuit + testbench scripts"]}
 EXPECTED_PROBES = ("sched", "tie", "zero_delay", "replaced_comb", "replaced_sync", "twins_same_instant", "coincident_domains",
                    "set_then_get", "tick_sample", "edge_wait", "changed_wait", "woken_by_testbench", "race_wait", "race_tie",
-                   "race_won_by_signal", "race_won_by_delay")
+                   "race_won_by_signal", "race_won_by_delay", "tick_observed", "tick_observed_under_reset",
+                   "tick_completed_by_async_reset")
 HANG_IS_VIOLATION = True
 CHUNK = 4
 PARTS = ["s1", "s2", "s3", "r1", "r2", "out"]
@@ -88,7 +93,8 @@ def gen_prog_tl(seed, tier):
         half = c["period"] // 2
         ph = c["phase"] if c["phase"] is not None else half
         rst_proc = {"dom": d["name"], "at": ph + fl.randint(1, 8) * half}
-    return {"kind": "prog_tl", "rst_proc": rst_proc, "refused_clock": fl.choice([0, 0, 6, 10]), "prog": prog, "clocks": clocks, "steps": steps, "orders": orders,
+    observer = fl.choice([None] + [d["name"] for d in prog["domains"]] * 2)
+    return {"kind": "prog_tl", "observer": observer, "rst_proc": rst_proc, "refused_clock": fl.choice([0, 0, 6, 10]), "prog": prog, "clocks": clocks, "steps": steps, "orders": orders,
             "add_order": fl.choice([0, fl.randrange(1, 1 << 30)])}
 
 
@@ -770,6 +776,21 @@ def run_prog_tl(case):
                                                              "copy of the first clock)", "got": ctx.get(cnt_g),
                                                              "expected": g_count[0] & 15, "t_fs": t})
 
+            obs_dom = case.get("observer")
+            got_obs, exp_obs = [], []
+            rise_seen = [False]      # an asynchronous reset rise of the observed domain already completed the observer's wait in this hop
+
+            def ref_vals():
+                return [ref.sig_value(i) for i in range(len(sigs))]
+
+            async def observer(ctx):
+                # added before the hopping testbench: a one-shot tick wait in a loop, sampling every signal of the program
+                while True:
+                    clk_hit, rst_active, *vals = await ctx.tick(obs_dom).sample(*B.sigs)
+                    got_obs.append([ctx.elapsed_time().femtoseconds, bool(clk_hit), bool(rst_active), [int(v) for v in vals]])
+            if obs_dom:
+                sim.add_testbench(observer, background=True)
+
             async def tb(ctx):
                 now = 0
                 base = -1          # toggle instants up to `base` have happened (a phase-0 clock toggles at time 0, after the start)
@@ -783,6 +804,12 @@ def run_prog_tl(case):
                         ref.set_input(si, v)
                     elif st["k"] == "rst":
                         if ref.rst[st["d"]] != st["l"]:
+                            if (st["d"] == obs_dom and st["l"] and ref.doms[obs_dom]["async_reset"] and not rise_seen[0]):
+                                # the observer's tick wait is completed by the asynchronous reset: no clock edge, reset active,
+                                # values from just before the reset took effect
+                                rise_seen[0] = True
+                                exp_obs.append([now, False, True, ref_vals()])
+                                P["tick_completed_by_async_reset"] = P.get("tick_completed_by_async_reset", 0) + 1
                             ctx.set(cds[st["d"]].rst, st["l"])
                             if st["l"]:
                                 F["arst" if ref.doms[st["d"]]["async_reset"] else "srst"] += 1
@@ -803,6 +830,12 @@ def run_prog_tl(case):
                         if rp and now == rp["at"] and not ref.rst[rp["dom"]]:
                             rch[rp["dom"]] = 1
                             P["process_reset_at_edge_instant"] = P.get("process_reset_at_edge_instant", 0) + 1
+                        rise_seen[0] = False
+                        if obs_dom and (obs_dom in active or rch.get(obs_dom)):
+                            exp_obs.append([now, obs_dom in active, bool(ref.rst.get(obs_dom, 0)) or bool(rch.get(obs_dom)), ref_vals()])
+                            P["tick_observed"] = P.get("tick_observed", 0) + 1
+                            if ref.rst.get(obs_dom, 0):
+                                P["tick_observed_under_reset"] = P.get("tick_observed_under_reset", 0) + 1
                         if active or rch:
                             ref.instant(active, rch)
                         for n, lvl in tog.items():
@@ -812,6 +845,12 @@ def run_prog_tl(case):
                     dig.add((st["k"], now, ref.observe()), state=(order is case["orders"][0]))
             sim.add_testbench(tb)
             sim.run()
+            if obs_dom and got_obs != exp_obs:
+                n = next((j for j, (a, b) in enumerate(zip(got_obs, exp_obs)) if a != b), min(len(got_obs), len(exp_obs)))
+                raise Violation("tick_observations", n, {"order": order, "domain": obs_dom, "entry": n,
+                                                         "got": got_obs[n] if n < len(got_obs) else None,
+                                                         "expected": exp_obs[n] if n < len(exp_obs) else None,
+                                                         "fields": "[time fs, clk_hit, rst_active, sampled signal values]"})
             stats["sim_fs"] += sim._engine.now if hasattr(sim, "_engine") else 0
             if order[0] != "hash":
                 stats["decisions"] += S.decisions
